@@ -28,9 +28,17 @@ TEXTS = {
                   "model/implementation correspondence with the property predicate evaluated on the implementation",
     ),
     "C06": dict(
-        text="PLACEHOLDER",
+        text="Kernel-checked, for every hash function and key-validity predicate: every well-formed segwit address (3 networks, blinded or not, versions 0..16, "
+             "program 2..40 / 20|32) displays to a text that parse_with_params and FromStr map back to it (C06_roundtrip_segwit, via checksum "
+             "create/verify, 8<->5 regrouping and decoder completeness); every parsed address outside the known class F5 has a 20-byte hash or a "
+             "version<=16 program of 2..40 bytes (20|32 for v0) with the checksum variant its version requires (C06_parsed_shape); FromStr is "
+             "parse_with_params of one built-in network; two built-in networks accept the same string only in the residual segwit-vs-base58check case "
+             "(C06_one_network_partial). F5 is re-derived as C06_blinded_short_program_refuted. Base58 round trip, the upper-case form and canonicity are "
+             "checked on the implementation only (harness predicates + model/implementation agreement), not proved.",
         design_ref="DESIGN.md section 6, C06",
-        note="PLACEHOLDER",
+        note="Trusted: Coq kernel incl. vm_compute; hand-written Gallina model of src/address.rs, src/blech32/decode.rs, bech32 0.11 and base58ck; upstream "
+             "bech32 constants by hand; SHA-256d and secp256k1 key validity abstract in theorems; translator regexes; extraction + OCaml driver audited by "
+             "in-kernel vm_compute; Rust harness with independent encoders. Known finding F5 (blinded short program) recorded in known_findings.txt.",
         technique="Coq proof over a hand-written model of src/address.rs, src/blech32/decode.rs, bech32 0.11 and base58ck + per-run correspondence",
     ),
 }
